@@ -153,6 +153,7 @@ type schedArg struct {
 	Strict   bool        `json:"strict"` // C04: compare ledger write order exactly for the deterministic commit
 	Ops      []Op        `json:"ops,omitempty"`   // commit scenario over an explicit history instead of a corpus history
 	Batch    [][]Op      `json:"batch,omitempty"` // several explicit histories: each is run with both commits
+	Supp     bool        `json:"supp,omitempty"`  // supplementary scenario (very many goroutines): explored under its budget, reported separately
 }
 
 func obsLedger(l *Ledger, from int, ordered bool) string {
@@ -698,6 +699,16 @@ func schedOne(a schedArg) TaskResult {
 		completed = b
 	}
 	res.Counters["executions"] = res.Evals
+	if a.Supp {
+		res.Counters["supplementary_scenarios"] = 1
+		res.Counters["supplementary_scenario_executions"] = res.Evals
+		if completed >= 0 {
+			res.Counters[fmt.Sprintf("supplementary_scenarios_completed_bound_%d", completed)] = 1
+		}
+		res.Counters["distinct_outcomes"] = len(outcomes)
+		res.Distinct = append(res.Distinct, name)
+		return res
+	}
 	res.Counters[fmt.Sprintf("scenarios_completed_bound_%d", completed)] = 1
 	if completed < maxB && len(res.Viols) == 0 {
 		res.Counters["capped_scenarios"] = 1
